@@ -2,7 +2,7 @@
 instrumentation state happens under one common lock (R08.2, lockset over the call graph)."""
 import ast
 
-from ..astq import is_name, is_self_attr, parse_fixture
+from ..astq import conds, is_name, is_self_attr, parse_fixture
 from ..callgraph import CallGraph
 from ..core import order, AnalysisError, norm, walk_local, dotted, FuncInfo
 from ..pairing import contextvars_of
@@ -237,8 +237,12 @@ def run(repo, chk):
             if isinstance(n, ast.Assign) and any(norm(t).startswith("_selector_fit_cache[") for t in n.targets):
                 ok_ = False
                 if isinstance(n.value, ast.Name):
-                    defs = [a for a in walk_local(fi.node) if isinstance(a, ast.Assign) and any(is_name(t, n.value.id) for t in a.targets) and a.lineno < n.lineno]
+                    defs = [a for a in walk_local(fi.node) if isinstance(a, ast.Assign) and any(is_name(t, n.value.id) for t in a.targets) and order(a) < order(n)]
                     ok_ = bool(defs) and isinstance(defs[-1].value, ast.Call) and norm(defs[-1].value.func) == "fits_selector" and q != "overlay.fits_selector"
+                    # writing back the None that the lookup just returned ("not computed") publishes nothing: other threads still see a miss
+                    if not ok_ and bool(defs) and isinstance(defs[-1].value, ast.Call) and norm(defs[-1].value.func) == "_selector_fit_cache.get" \
+                            and f"{n.value.id} is None" in conds(n, fi.node):
+                        ok_ = True
                 stores.append((q, norm(n), ok_))
     chk.ob("R08.1", "module:overlay._selector_fit_cache:exemption-premise", all(o for _, _, o in stores), "ptera/overlay.py",
            "the memo is exempt from locking because every store writes the complete result of fits_selector for its key (racing writers store equal values): "
